@@ -3,7 +3,8 @@
     The wrappers read the lists found through find_checker at call time ([checker_call] takes them
     as arguments); judging a call by hand over those lists - DNF over the groups, then CNF over the
     postconditions - is [pre_holds] / [posts_hold]. *)
-From ICV Require Import Base Bind Checker CheckerSpec CheckerFrame CheckerProps Elab ElabProofs.
+From Coq Require Import List.
+From ICV Require Import Base Bind Checker CheckerSpec CheckerFrame CheckerProps Elab ElabProofs ElabRegistered.
 Open Scope string_scope.
 Open Scope list_scope.
 
@@ -28,3 +29,13 @@ Theorem C18_manual_postcondition_verdict m U s pre snaps post args kwargs st t r
     /\ posts_hold m U post (resolved_post s snaps post args kwargs old v) stb = true.
 Proof. exact (return_means_posts_hold m U s pre snaps post args kwargs st t r st' v). Qed.
 Print Assumptions C18_manual_precondition_verdict.
+
+(** Every class created through the meta-class is announced to the integration hook exactly once, in creation order, and
+    nothing else is: in every world that a history of definitions - functions, classes (also failing ones), later
+    decorations - reaches, the registrations are the numbers of the meta classes, ascending. *)
+Theorem C18_registered_are_the_meta_classes ops :
+  let w := fst (run_defs empty_world ops) in
+  w_registered w = filter (fun k => match get_class w k with Some c => co_meta c | None => false end)
+                          (seq 0 (List.length (w_classes w))).
+Proof. exact (registered_are_the_meta_classes ops). Qed.
+Print Assumptions C18_registered_are_the_meta_classes.
